@@ -4,7 +4,8 @@ from __future__ import annotations
 from .model import MNode, MTree
 from .world import World
 
-LABELS = ["a", "b", "c", "d", "e", "f", "g", "h", "\u00e4", "\u65e5\u672c", "e\u0301"]
+LABELS = ["a", "b", "c", "d", "e", "f", "g", "h", "\u00e4", "\u65e5\u672c", "e\u0301",
+          "caf\udce9"]  # the last one: a lone surrogate (os.fsdecode of a non-UTF-8 file name)
 IDS = ["#x0", "#x1", "#x2", "#x3", 9001, 9002, 0, ""]
 KINDS = ["k0", "k1", "k2", ""]  # the empty string is a legal kind
 
@@ -95,6 +96,8 @@ def draw_cfg(rng, prop: str, tier: str, overrides=None) -> dict:
     cfg["labels"] = list(LABELS[:n_labels])
     if rng.random() < 0.25:
         cfg["labels"] += LABELS[8:]  # non-ASCII labels (file encoding, zip members)
+    if rng.random() < 0.12:
+        cfg["labels"].append("")  # the empty string is legal (falsy) node data
     if rng.random() < 0.15:
         ms = magic_strings()
         if ms:
@@ -109,6 +112,9 @@ def draw_cfg(rng, prop: str, tier: str, overrides=None) -> dict:
             flav.append(f)
     if primary in ("hook", "thook") and rng.random() < 0.35:
         flav.append("u")  # native dicts keyed by the id callback
+    if all(sl in ("hook", "thook") for sl in cfg["slots"]) and rng.random() < 0.5:
+        # floats equal to the ints of flavour "i", keyed differently by the id callback
+        flav += [f for f in ("i", "x") if f not in flav]
     if primary == "fs":
         flav = ["f"]  # the FileSystemTree mappers only know FileSystemEntry data
     elif primary in ("plain", "typed", "hook", "thook") and rng.random() < 0.04:
@@ -146,8 +152,8 @@ def draw_cfg(rng, prop: str, tier: str, overrides=None) -> dict:
     if prop == "C07":
         cfg["p_node_src"] = rng.choice([0.22, 0.35])
         cfg["p_tree_src"] = rng.choice([0.06, 0.15, 0.25])
-    if prop in ("C13", "C03"):
-        cfg["p_tree_src"] = rng.choice([0.06, 0.15])
+    if prop in ("C13", "C03", "C04"):
+        cfg["p_tree_src"] = rng.choice([0.06, 0.15])  # (C04: positions of whole-tree inserts)
     w = dict(BASE_WEIGHTS)
     for k, mul in PROFILES.get(prop, {}).items():
         w[k] = w.get(k, 1) * mul
@@ -217,6 +223,8 @@ def _keys_of_flavour(f, cfg):
     if f == "i":
         # 0: falsy but valid data; 2**61-1 and 2**61: ints whose hash differs from their value
         return ["i:1", "i:2", "i:3", "i:0", "i:2305843009213693951", "i:2305843009213693952"]
+    if f == "x":
+        return ["x:1", "x:2", "x:3", "x:0"]
     if f == "t":
         return ["t:1#0", "t:1#1", "t:2#0"]
     if f == "d":
@@ -284,7 +292,10 @@ def pick_data_src(rng, cfg, w: World, si: int) -> dict:
         return {"data": f"s:L{rng.randrange(400)}"}  # many distinct labels for big trees
     if ns and rng.random() < cfg["p_reuse"]:
         return {"data_of": rng.choice(ns).uid}
-    f = rng.choice(cfg["flavours"])
+    flav = cfg["flavours"]
+    if "x" in flav and w.slots[si].model.flavour not in ("hook", "thook"):
+        flav = [f for f in flav if f != "x"] or ["s"]  # (a loaded tree has no id callback)
+    f = rng.choice(flav)
     return {"data": rng.choice(_keys_of_flavour(f, cfg))}
 
 
@@ -310,6 +321,10 @@ def pick_before(rng, P: MNode, allow_int=True):
 
 def other_node_not_child(rng, w: World, si: int, P: MNode):
     cands = [m for m in nodes_of(w, si) if m.parent is not P]
+    others = [j for j in live_slots(w) if j != si and nodes_of(w, j)]
+    if others and rng.random() < 0.3:
+        # a node of another tree (possibly of another tree class) as position
+        return rng.choice(nodes_of(w, rng.choice(others)))
     if not cands:
         return None
     # prefer a foreign node that equals (same data / data_id) one of P's children:
@@ -771,7 +786,7 @@ def gen_restart(rng, cfg, w: World, opid, invalid, steer):
         op["with_mapper"] = rng.random() < 0.3
         return op
     op["key_map"] = rng.choice(["default", "off", "custom"])
-    op["value_map"] = rng.choice(["default", "off", "custom"])
+    op["value_map"] = rng.choice(["default", "off", "custom", "custom", "custom_dup"])
     op["target"] = rng.choice(["path", "path", "stream"])
     if op["target"] == "path":
         c = rng.choice([None, None, False, True, "STORED", "DEFLATED", "BZIP2", "LZMA"])
@@ -785,6 +800,8 @@ def gen_restart(rng, cfg, w: World, opid, invalid, steer):
         op["no_mapper"] = True
     if rng.random() < 0.3:
         op["auto_uncompress"] = True
+    if rng.random() < 0.4:
+        op["reuse_file_meta"] = True
     if rng.random() < (0.5 if op["key_map"] == "off" else 0.25):
         op["user_keys"] = True  # mapper fields named "s", "i", "k"
     return op
